@@ -63,7 +63,9 @@ def doc_lines(L: Dict[str, Any]) -> List[str]:
     if fmt == "epytext":
         lines += ["@note: field body line one", "    field body two%s" % t("field")]
         if prob == "tfield":
-            lines += ["@ivar y: the y", "@type y: nosuch.name"]
+            lines += ["@ivar y: the y", "@type y: nosuch.name" if L.get("pt") else "@type y: L{nosuch.name}"]
+        if prob == "vfield":
+            lines += ["@ivar y: the y L{nosuch.name}"]
         if prob == "unkfield":
             lines += ["@unknownfield: text"]
         if prob == "param":
@@ -73,7 +75,11 @@ def doc_lines(L: Dict[str, Any]) -> List[str]:
         if prob == "unkfield":
             lines += [":unknownfield: text"]
         if prob == "tfield":
-            lines += [":ivar y: the y", ":type y: nosuch.name"]
+            lines += [":ivar y: the y", ":type y: nosuch.name" if L.get("pt") else ":type y: `nosuch.name`"]
+        if prob == "vfield":
+            lines += [":ivar y: the y `nosuch.name`"]
+        if prob == "consbad":
+            lines += [":Parameters: a b c"]
         if prob == "param" and L.get("cons"):
             lines += [":Parameters:", "    a", "        the arg", "    nosuch", "        text"]
         elif prob == "param":
@@ -147,6 +153,13 @@ def render(L: Dict[str, Any]) -> Tuple[str, Dict[str, int]]:
     else:
         out.append(body_ind + '"""')
     close = len(out)
+    if L["prob"] in ("vfield", "tfield"):          # the documented attribute, and (ann) a callable with annotations
+        out.append(q_ind + "y = 1")
+        if L.get("inl"):
+            out.append(q_ind + '"""Inline docstring of y."""')
+        if L.get("ann"):
+            out += [q_ind + ("def alpha(self, x: int) -> str:" if kind == "class" else "def alpha(x: int) -> str:"),
+                    q_ind + '    """Alpha."""', q_ind + "    return str(x)"]
     if kind == "class":
         out += [q_ind + "def __init__(self, %s):" % ("a, b=1, c=2" if L.get("typed") else "a"), q_ind + '    """Init."""']
     if kind in ("function", "method"):
@@ -154,7 +167,7 @@ def render(L: Dict[str, Any]) -> Tuple[str, Dict[str, int]]:
     if L.get("typed"):
         out += ["class T:", '    """The type."""']         # below the object: moves nothing
     # where the planted token / field actually is in the rendered file
-    needle = {"xref": "nosuch.name", "markup": "unclosed", "unkfield": "unknownfield", "param": "nosuch", "tfield": "nosuch.name"}[L["prob"]]
+    needle = {"xref": "nosuch.name", "markup": "unclosed", "unkfield": "unknownfield", "param": "nosuch", "tfield": "nosuch.name", "vfield": "nosuch.name", "consbad": ":Parameters:"}[L["prob"]]
     at = [i + 1 for i, s in enumerate(out) if needle in s]
     return "\n".join(out) + "\n", {"quote": quote, "text0": text0, "close": close, "at": at[0] if len(at) == 1 else -1,
                                    "doclen": len(lines)}
@@ -166,7 +179,7 @@ def check_geometry(rec: Dict[str, Any], meas: Dict[str, int], src: str) -> None:
         if rec[f] != meas[f]:
             raise MachineryError(f"Lines.tla geometry != rendered file for {rec['lay']}: {f} spec={rec[f]} file={meas[f]}\n{src}")
     head = {"p1": "Summary line one", "p2l2": "Second paragraph line one", "item": "item line one",
-            "field": "ote", "own": {"param": "nosuch", "tfield": "type y"}.get(rec["lay"]["prob"], "unknownfield")}[rec["lay"]["pos"]]
+            "field": "ote", "own": {"param": "nosuch", "tfield": "type y", "vfield": "ivar y", "consbad": ":Parameters:"}.get(rec["lay"]["prob"], "unknownfield")}[rec["lay"]["pos"]]
     flines = src.split("\n")
     if head not in flines[rec["first"] - 1]:
         raise MachineryError(f"Lines.tla FirstLine is not the first line of the construct for {rec['lay']}: "
@@ -180,6 +193,7 @@ def _install_recorders(events: List[Dict[str, Any]], buf: io.StringIO, expr_faul
     from pydoctor.templatewriter import pages
     orig_msg, orig_re, orig_h2s = model.System.msg, epydoc2stan.reportErrors, pages.html2stan
     orig_reparent = model.Documentable.reparent
+    orig_dup = model.System.handleDuplicate
     depth = {"re": 0}
     box: Dict[str, Any] = {}
 
@@ -216,7 +230,17 @@ def _install_recorders(events: List[Dict[str, Any]], buf: io.StringIO, expr_faul
                        "perr": sum(len(v) for v in self.system.parse_errors.values())})
         return r
 
+    def handleDuplicate(self, obj):
+        prev = self.allobjects.get(obj.fullName())
+        old = obj.fullName()
+        r = orig_dup(self, obj)
+        if prev is not None:
+            events.append({"op": "supersede", "o": old, "to": prev.fullName(), "v": self.violations,
+                           "perr": sum(len(v) for v in self.parse_errors.values())})
+        return r
+
     model.System.msg = msg
+    model.System.handleDuplicate = handleDuplicate
     model.Documentable.reparent = reparent
     epydoc2stan.reportErrors = reportErrors
     if expr_fault:
@@ -225,6 +249,7 @@ def _install_recorders(events: List[Dict[str, Any]], buf: io.StringIO, expr_faul
     def undo():
         model.System.msg, epydoc2stan.reportErrors, pages.html2stan = orig_msg, orig_re, orig_h2s
         model.Documentable.reparent = orig_reparent
+        model.System.handleDuplicate = orig_dup
     return undo, box
 
 
@@ -340,8 +365,17 @@ def exit_project(root: str, run: Dict[str, Any]) -> Tuple[str, int, bool]:
             planted += 1
         doc = ['    """'] + [("    " + b) if b else "" for b in body] + ['    """']
         head = ['"""Module."""', "import re", '__docformat__ = "%s"' % ("epytext" if epy else "restructuredtext"), ""]
-        if shape == "func":
-            src = head + ["def f(a%s):" % (", sigboom_param" if c["expr"] else "")] + doc + [""]
+        if shape == "reexpv":        # a module variable documented by a field of the module docstring, re-exported by the package
+            link = "L{nosuch.name}" if epy else "`nosuch.name`"
+            fld = ("@var LIMIT%d: upper bound, see %s" if epy else ":var LIMIT%d: upper bound, see %s") % (i, link)
+            src = ['"""', "Private module.", "", "More about it.", "", fld, '"""', '__docformat__ = "%s"' % ("epytext" if epy else "restructuredtext"),
+                   "", "LIMIT%d = 1" % i, ""]
+        elif shape == "func":
+            pre = []
+            if c.get("crash"):      # a docstring that sets a default role and then makes the reST parser raise
+                pre = ["def f0(a):", '    """', "    Summary line.", "", "    .. default-role:: emphasis", "", "    .. VersionAdded:: 1", '    """', ""]
+                planted += 1
+            src = head + pre + ["def f(a%s):" % (", sigboom_param" if c["expr"] else "")] + doc + [""]
         elif shape in ("inhF", "inhL"):     # a method whose docstring is inherited by an override in another module
             mdoc = ['        """'] + [("        " + b) if b else "" for b in body] + ['        """']
             src = head + ["class Base%d:" % i, '    """Base."""', "    def meth(self, a):"] + mdoc + [""]
@@ -351,6 +385,11 @@ def exit_project(root: str, run: Dict[str, Any]) -> Tuple[str, int, bool]:
             Path(pkg, ("a%d.py" if shape == "inhF" else "z%d.py") % i).write_text("\n".join(sub) + "\n")
             if c["field"]:
                 planted += 1                 # the field is handled once for the method and once for the override
+        elif shape == "dup3":                # both definitions have markup errors of their own
+            doc2 = ['    """'] + [("    " + b.replace("unclosed", "unclosed2")) if b else "" for b in body] + ['    """']
+            src = (head + ["class K%d:" % i] + doc + ["    def meth(self, a):", '        """Method."""', ""]
+                   + ["class K%d:" % i] + doc2 + ["    def meth(self, a):", '        """Method."""', ""])
+            planted += c["nerr"]
         elif shape in ("dup", "dup2"):      # the class is defined twice: one definition carries the problems, the other is clean
             clean = ['    """', "    Clean definition.", '    """']
             first, second = (doc, clean) if shape == "dup" else (clean, doc)
@@ -366,9 +405,9 @@ def exit_project(root: str, run: Dict[str, Any]) -> Tuple[str, int, bool]:
             planted += 1
         text = "\n".join(src) + "\n"
         compile(text, "m", "exec")
-        if shape == "reexp":      # private implementation module, class re-exported by the package
+        if shape in ("reexp", "reexpv"):      # private implementation module, class / variable re-exported by the package
             Path(pkg, "_impl%d.py" % i).write_text(text)
-            reexported.append((i, "K%d" % i))
+            reexported.append((i, ("K%d" if shape == "reexp" else "LIMIT%d") % i))
         else:
             Path(pkg, "m%d.py" % i).write_text(text)
     init = ['"""Pkg."""'] + ["from ._impl%d import %s" % (i, k) for i, k in reexported]
@@ -387,12 +426,12 @@ def _exit_job(job: Tuple[str, Dict[str, Any]]) -> Dict[str, Any]:
     # which file each problem line names: object i's docstring lives in m<i>.py, or _impl<i>.py when it is re-exported
     named = []
     for i, c in enumerate(run["cfg"], 1):
-        fn = ("_impl%d.py" if c.get("shape") == "reexp" else "m%d.py") % i
+        fn = ("_impl%d.py" if c.get("shape") in ("reexp", "reexpv") else "m%d.py") % i
         named.append(len(r["per_file"].get(fn, [])))
     return {"run": run, "rc": r["rc"], "violations": r["violations"], "nprob": r["nprob"], "events": r["events"],
             "planted": planted, "W": run["W"], "V": run["V"], "named": named,
-            "misnamed": sorted({g[2] for k, v in r["per_file"].items() for g in v} - {os.path.join(pkg, ("_impl%d.py" if c.get("shape") == "reexp" else "m%d.py") % i) for i, c in enumerate(run["cfg"], 1)}),
-            "planted_unparsed": any(c["nerr"] > 0 or c["expr"] for c in run["cfg"])}
+            "misnamed": sorted({g[2] for k, v in r["per_file"].items() for g in v} - {os.path.join(pkg, ("_impl%d.py" if c.get("shape") in ("reexp", "reexpv") else "m%d.py") % i) for i, c in enumerate(run["cfg"], 1)}),
+            "planted_unparsed": any(c["nerr"] > 0 or c["expr"] or c.get("crash") for c in run["cfg"])}
 
 
 def judge_exit(rc: int, W: bool, nprob: int, violations: int, planted: int, planted_unparsed: bool) -> List[str]:
@@ -445,6 +484,62 @@ def kf_type_twice(w: Dict[str, Any]) -> bool:
             and exp["lo"] <= got[0] <= exp["hi"] and got[1] == exp.get("impl2"))
 
 
+def _exit_explained(w: Dict[str, Any]) -> Optional[set]:
+    """Which known deviations account for EVERYTHING that is wrong with an ExitStatus run (None: something else is)."""
+    failed = set(w.get("failed") or ["?"])
+    if not failed <= {"NothingLost", "NamesTheFile"}:
+        return None
+    run = w.get("run") or {}
+    obs, exp = w.get("observed") or {}, w.get("expected") or {}
+    need = set()
+    lost = sum(c["nerr"] for c in run.get("cfg", []) if c.get("shape") == "dup3")
+    if "NothingLost" in failed:
+        if lost > 0 and obs.get("problem_lines") == exp.get("planted", -1) - lost:
+            need.add("dup3")
+        else:
+            return None
+    mis = w.get("misnamed") or []
+    if "NamesTheFile" in failed:
+        if any(c.get("shape") == "reexpv" for c in run.get("cfg", [])) and len(mis) == 1 and mis[0].endswith(os.path.join("pkg", "__init__.py")):
+            need.add("reexpv")
+        else:
+            return None
+    elif mis:
+        return None
+    return need or None
+
+
+def kf_dup_both_bad(w: Dict[str, Any]) -> bool:
+    """Python twin of ExitStatus.tla LostToStaleName: a class defined twice, both definitions with markup errors: the errors of
+    the second are never printed (its name is already in parse_errors); whatever else is wrong is the other known deviation."""
+    need = _exit_explained(w)
+    return need is not None and "dup3" in need
+
+
+def kf_var_in_package(w: Dict[str, Any]) -> bool:
+    """Python twin of ExitStatus.tla NamesTheFileOrKF: the link problem of a re-exported field-documented module variable names
+    the package's __init__.py; whatever else is wrong is the other known deviation."""
+    need = _exit_explained(w)
+    return need is not None and "reexpv" in need
+
+
+def kf_inline_origin(w: Dict[str, Any]) -> bool:
+    """Python twin of Lines.tla KF_InlineOrigin: an attribute documented by an ivar field that also has a docstring of its own:
+    the field's problems are located from the line of that (ignored) string instead of the line of the field."""
+    lay, exp = w.get("layout") or {}, w.get("expected") or {}
+    got = sorted(w.get("observed", {}).get("lines") or [])
+    return (w.get("invariant") == "ObsAcceptable" and bool(lay.get("inl")) and len(got) == 2
+            and sorted([exp.get("impl"), exp.get("impl2")]) == got and exp.get("impl", 0) > exp.get("also", 0) > 0)
+
+
+def kf_cons_bad(w: Dict[str, Any]) -> bool:
+    """Python twin of Lines.tla KF_ConsBad: 'Unable to split consolidated field' printed one line below the field."""
+    lay, exp = w.get("layout") or {}, w.get("expected") or {}
+    got = w.get("observed", {}).get("lines") or []
+    f = exp.get("first", -9)
+    return w.get("invariant") == "ObsAcceptable" and lay.get("prob") == "consbad" and sorted(got) == [f, f, f + 1]
+
+
 def kf_napoleon_beyond(w: Dict[str, Any]) -> bool:
     """Python twin of Lines.tla KF_Napoleon: google / numpy section with typed entries: the line counted in the text napoleon
     produced (one extra :type: line per entry) lies past the closing quotes of the docstring."""
@@ -472,19 +567,22 @@ CONSTANTS Source = "{source}"
   Seps = {{"none", "ls", "nel"}}
   RstLineNotConverted = {"TRUE" if os.environ.get("VERIF_C16_MODEL") == "prefix" else "FALSE"}
   LeadingWsKept = {"TRUE" if os.environ.get("VERIF_C16_LEADWS") == "prefix" else "FALSE"}
+  InlineMovesOrigin = {"FALSE" if os.environ.get("VERIF_C16_INLINE") == "fixed" else "TRUE"}
 CONSTRAINT Emit
 {inv}"""
 
 
 def exit_cfg(source: str, objs: str, rich: str, interleave: bool) -> str:
-    inv = ("INVARIANT EveryReportCounted\nINVARIANT ExitW\nINVARIANT ExitNoW\nINVARIANT NothingLost\n"
-           + ("INVARIANT StaleStillCounts\nINVARIANT NamesTheFile\n" if source == "enum" else ""))
+    inv = ("INVARIANT EveryReportCounted\nINVARIANT ExitW\nINVARIANT ExitNoW\nINVARIANT %s\n" % ("NothingLostOrKF" if source == "enum" else "NothingLost")
+           + ("INVARIANT StaleStillCounts\nINVARIANT NamesTheFileOrKF\n" if source == "enum" else ""))
     tail = "CONSTRAINT EmitTerminal\n" if source == "enum" else "CONSTRAINT Accept\nPOSTCONDITION Post\n"
     return f"""SPECIFICATION Spec
 CONSTANTS Source = "{source}"
   Objs = {objs}
   RichObjs = {rich}
   Interleave = {"TRUE" if interleave else "FALSE"}
+  StaleNameKept = {"FALSE" if os.environ.get("VERIF_C16_STALENAME") == "fixed" else "TRUE"}
+  VarSourceIsNewParent = {"FALSE" if os.environ.get("VERIF_C16_VARSOURCE") == "fixed" else "TRUE"}
 {tail}{inv}"""
 
 
@@ -496,6 +594,10 @@ def run(ctx: Ctx) -> int:
     ctx.register_matcher("napoleon-line-beyond-docstring", kf_napoleon_beyond)
     ctx.register_matcher("docutils-extra-line-boundaries", kf_docutils_sep)
     ctx.register_matcher("type-field-offset-added-twice", kf_type_twice)
+    ctx.register_matcher("duplicate-definition-errors-swallowed", kf_dup_both_bad)
+    ctx.register_matcher("ivar-inline-docstring-line", kf_inline_origin)
+    ctx.register_matcher("consolidated-field-error-line", kf_cons_bad)
+    ctx.register_matcher("reexported-variable-reported-in-package", kf_var_in_package)
     nproc = max(2, min(NCPU, 16))
 
     # ================================================================= Lines: spec -> code
@@ -511,7 +613,7 @@ def run(ctx: Ctx) -> int:
     ctx.extra["layouts"] = len(recs)
     by_fmt: Dict[str, List[Dict[str, Any]]] = {}
     for rec in recs:
-        by_fmt.setdefault(rec["lay"]["fmt"] + ("+pt" if rec["lay"]["prob"] == "tfield" else ""), []).append(rec)
+        by_fmt.setdefault(rec["lay"]["fmt"] + ("+pt" if rec["lay"].get("pt") else ""), []).append(rec)
     jobs = []
     for fmt, rs in sorted(by_fmt.items()):
         rng.shuffle(rs)
@@ -537,25 +639,26 @@ def run(ctx: Ctx) -> int:
     for o in observations:
         rec = recs_by_key[json.dumps(o["lay"], sort_keys=True)]
         ctx.traces += 1
-        exp = {"lo": rec["lo"], "hi": rec["hi"], "first": rec["first"], "at": rec["at"], "impl": rec["impl"], "impl2": rec["impl2"]}
+        exp = {"lo": rec["lo"], "hi": rec["hi"], "first": rec["first"], "at": rec["at"], "impl": rec["impl"], "impl2": rec["impl2"], "also": rec["also"]}
         wit = {"layout": o["lay"], "expected": exp, "observed": {"lines": o["lines"], "msgs": o["msgs"]},
                "key": "lines:%s:%s:%s:%s:%s%s" % (o["lay"]["fmt"], o["lay"]["prob"], o["lay"]["pos"], o["lay"]["kind"],
                                                  "typed" if o["lay"]["typed"] else "", "longws" if o["lay"]["longws"] else "")
                + ("title" if o["lay"].get("lead") == "title" else "") + ("tight" if o["lay"].get("tight") else "")
-               + (o["lay"].get("sep", "none") if o["lay"].get("sep", "none") != "none" else "") + ("cons" if o["lay"].get("cons") else "")}
-        want_n = 2 if rec["impl2"] else 1
+               + (o["lay"].get("sep", "none") if o["lay"].get("sep", "none") != "none" else "") + ("cons" if o["lay"].get("cons") else "")
+               + ("pt" if o["lay"].get("pt") else "") + ("ann" if o["lay"].get("ann") else "") + ("inl" if o["lay"].get("inl") else "")}
+        want_n = rec["count"]
         if len(o["lines"]) != want_n:
             ctx.violation({"invariant": "ObsOne", **wit})          # the planted problem lost, or reported more often than the model says
         elif not o["path_ok"]:
             ctx.violation({"invariant": "NamesTheFile", **wit})
-        elif not all(rec["lo"] <= x <= rec["hi"] for x in o["lines"]):
+        elif not all(rec["lo"] <= x <= rec["hi"] or (rec["also"] and x == rec["also"]) for x in o["lines"]):
             ctx.violation({"invariant": "ObsAcceptable", **wit})
         if o.get("alone") is not None:
             histories += 1
             if o["alone"] != sorted(o["lines"]):          # the same docstring, the other order of summary / body
                 ctx.violation({"invariant": "HistoryIndependent", **wit, "observed": {"lines": o["lines"], "render_alone": o["alone"], "msgs": o["msgs"]},
                                "key": "hist:" + wit["key"]})
-        model_lines = sorted([rec["impl"]] + ([rec["impl2"]] if rec["impl2"] else []))
+        model_lines = sorted([rec["impl"]] + [rec["impl2"]] * (rec["count"] - 1))
         if len(o["lines"]) == want_n and sorted(o["lines"]) != model_lines:
             drift += 1
             ctx.drift_note({"layout": o["lay"], "model": model_lines, "real": o["lines"]})
@@ -586,7 +689,7 @@ def run(ctx: Ctx) -> int:
     for o in observations:
         v = verdicts[o["id"]]
         rec = recs_by_key[json.dumps(o["lay"], sort_keys=True)]
-        py_ok = len(o["lines"]) == (2 if rec["impl2"] else 1) and all(rec["lo"] <= x <= rec["hi"] for x in o["lines"])
+        py_ok = len(o["lines"]) == rec["count"] and all(rec["lo"] <= x <= rec["hi"] or (rec["also"] and x == rec["also"]) for x in o["lines"])
         if v["ok"] != py_ok:
             raise MachineryError(f"TLC and the Python twin disagree on observation {o}: {v}")
         if not v["ok"]:
